@@ -1,7 +1,7 @@
 #!/bin/sh
-# tools/seed_batch.sh <Cxx> [check-id ...]: confirm /tmp/seed/<Cxx>/out/{a,b} and run the named checks (default: Cxx) against each
+# [VARIANTS="c d"] tools/seed_batch.sh <Cxx> [check-id ...]: confirm /tmp/seed/<Cxx>/out/{a,b} and run the named checks (default: Cxx) against each
 p="$1"; shift; checks="${*:-$p}"
-for v in a b; do
+for v in ${VARIANTS:-a b}; do
   d=/tmp/seed/$p/out/$v
   [ -d "$d" ] || continue
   python3 /verif/tools/confirm_seed.py $d > /tmp/seed/confirm_${p}_out_${v}.json 2>&1
